@@ -64,7 +64,8 @@ def load(path, want_fcsdata=True):
         widths = [f.data.dtype.itemsize * 8] * D
     o = {'k': 'ok', 'N': int(f.data.shape[0]), 'D': int(D), 'isint': isint, 'widths': widths,
          'data': project_data(f.data, widths, isint),
-         'text': [[codes(k), codes(v)] for k, v in f.text.items()], 'warn': warn}
+         'text': [[codes(k), codes(v)] for k, v in f.text.items()],
+         'analysis': [[codes(k), codes(v)] for k, v in f.analysis.items()], 'warn': warn}
     if want_fcsdata:
         try:
             with warnings.catch_warnings():
